@@ -403,6 +403,52 @@ func rtpcbCases(quick bool) []protox.Case {
 		for name, s := range seqs {
 			cs = append(cs, mk("rtpcb", st, "seq/"+name, "", packItems(s...), -1))
 		}
+		// all short sequences over {next RTP, duplicate, older, audio RTP, SR video / audio / foreign ssrc}:
+		// receiver-report bookkeeping divides by packet counts that such histories make zero or negative
+		maxL := 4
+		if !quick {
+			maxL = 5
+		}
+		alpha := []string{"Rn", "Rd", "Ro", "An", "Sv", "Sa", "Sf"}
+		var recq func(cur []string)
+		recq = func(cur []string) {
+			if len(cur) > 0 {
+				var its [][]byte
+				vs, as := uint16(10), uint16(10)
+				for _, k := range cur {
+					switch k {
+					case "Rn":
+						vs++
+						its = append(its, pk(single, vs, uint32(vs)*90, 4))
+					case "Rd":
+						its = append(its, pk(single, vs, uint32(vs)*90, 4))
+					case "Ro":
+						its = append(its, pk(single, vs-3, uint32(vs-3)*90, 4))
+					case "An":
+						as++
+						its = append(its, R(rtp(97, true, as, uint32(as)*1024, append([]byte{0, 16, 0, 0x18}, body(3)...))))
+					case "Sv":
+						its = append(its, C(rtcpSr()))
+					case "Sa":
+						x := rtcpSr()
+						x[7] = 8
+						its = append(its, C(x))
+					case "Sf":
+						x := rtcpSr()
+						x[7] = 99
+						its = append(its, C(x))
+					}
+				}
+				cs = append(cs, mk("rtpcb", st, "history", strings.Join(cur, " "), packItems(its...), -1))
+			}
+			if len(cur) == maxL {
+				return
+			}
+			for _, k := range alpha {
+				recq(append(append([]string{}, cur...), k))
+			}
+		}
+		recq(nil)
 		sr := rtcpSr()
 		for _, m := range truncs(sr, 1) {
 			cs = append(cs, mk("rtpcb", st, "rtcp-truncated", m.desc, packItems(C(m.b)), -1))
